@@ -169,7 +169,7 @@ def model_check_crash(chk, work, q):
     chk.cov["layer_I_leads"] = leads
 
 
-def validate_crash_traces(chk, work, results, label_of):
+def validate_crash_traces(chk, work, results, label_of, pid=None, clauses=None):
     """Every crash case as abstract events through TraceCrash.tla (one batch)."""
     path = os.path.join(work, "crash.ndjson")
     index = []          # line -> (result idx, event idx)
@@ -199,7 +199,7 @@ def validate_crash_traces(chk, work, results, label_of):
     seen = set()
     for m in _BAD.finditer(out):
         line, clause = int(m.group(1)) - 1, m.group(2)
-        if clause not in CRASH_CLAUSES:
+        if clause not in (CRASH_CLAUSES if clauses is None else clauses):
             continue
         ri, ei = index[line]
         if (ri, clause) in seen:
@@ -210,7 +210,7 @@ def validate_crash_traces(chk, work, results, label_of):
         chk.violation(f"{label_of(r)};outcome:crash-model:{clause};event:{ev['a']}",
                       f"killed at {label_of(r)}: event {ei} ({ev['a']}) of the recorded effects violates {clause} of TraceCrash.tla: "
                       f"{json.dumps(ev)[:300]}",
-                      {"property": PID, "binding": "C", "spec": "TraceCrash", "kind": "crash", "scenario": r["scenario"], "points": r["points"],
+                      {"property": pid or PID, "binding": "C", "spec": "TraceCrash", "kind": "crash", "scenario": r["scenario"], "points": r["points"],
                        "clause": clause, "event_index": ei, "abstract": r["abstract"][max(0, ei - 12): ei + 1]})
     print(f"  TraceCrash: {len(index)} recorded effects of {ntr} crash cases applied to the Crash.tla disk", flush=True)
 
@@ -282,6 +282,77 @@ def crash_selftest(chk, work, results):
             chk.machinery(f"crash self-test: '{name}' was rejected, but by none of the clauses that concern it ({got})")
     chk.cov["binding_selftest"] = report
     print("  binding self-test (TraceCrash): " + "; ".join(f"{r['corruption']} -> {', '.join(r['rejected_by'][:3]) or 'accepted'}" for r in report[1:]), flush=True)
+
+
+WEIGHT_CRASH_CLAUSES = {"T_OrderRow", "T_OrderTmp", "T_OrderReplace", "T_Rows", "T_RowsOnce", "T_RowsAfterRestart", "T_RowsNotLive"}
+WEIGHT_TRACE_CLAUSES = {"R_Frac", "R_RowsOnce", "R_RowsNotLive", "C_Rows", "C_RecordFrac", "C_CreditUnit", "C_CreditSupport", "C_CreditDomain",
+                        "C_CreditBusyZero", "F_RecordFrac"}
+
+
+def weights_across_crashes(sc, pid, q):
+    """C04 'across restarts': the main process is killed at every file-system effect that concerns the data file or the restart file
+    (before it, with the file empty or half written, after it), restarted and driven to the end; the recorded effects go through
+    TraceCrash.tla and the recorded events through TraceInfretis.tla, and the clauses about data rows and fractional weights are
+    reported (rows written once, never for a live path, not kept beyond the restart file; the restored weights are the recorded ones;
+    the credits of the redone step sum to one).  C08 enumerates all effects and all clauses; this is its projection on the weights."""
+    chk = sc.chk
+    scenarios = [{"n": 4, "workers": 2, "steps": 5, "seed": 5, "sched_seed": 2}] if q else \
+        [{"n": 4, "workers": 2, "steps": 5, "seed": 5, "sched_seed": 2}, {"n": 4, "workers": 3, "steps": 6, "seed": 9, "sched_seed": 4},
+         {"n": 3, "workers": 1, "steps": 4, "seed": 3, "sched_seed": 1}]
+    refs = pick_scenarios(scenarios)
+    cases, effect_of = [], {}
+    for scn, rc, eff, err, _moved in refs:
+        if rc != 0 or eff is None:
+            chk.machinery(f"reference run of {scn} failed (rc={rc}, {err})")
+            continue
+        effect_of[json.dumps(scn, sort_keys=True)] = eff
+        for k, (kind, role, nbytes) in enumerate(eff):
+            if role not in ("infretis_data.txt", "restart.toml", "restart.toml.tmp"):
+                continue
+            pts = [(k, "before", None), (k + 0, "after", None)] if not kind.startswith("open") else \
+                [(k, "before", None), (k, "empty", None)] + ([(k, "half", max(1, nbytes // 2))] if nbytes > 1 else [])
+            for p in pts:
+                if p[1] == "after" and k != len(eff) - 1:
+                    p = (k + 1, "before", None)
+                cases.append((len(cases), scn, [p]))
+    results = common.pmap(crash_case, cases, chunksize=2)
+
+    def label_of(r):
+        eff = effect_of[json.dumps(r["scenario"], sort_keys=True)]
+        k, mode, _hb = r["points"][0]
+        kind, role, _b = eff[k] if k < len(eff) else ("?", "?", 0)
+        return f"crash:effect:{kind}:{role};mode:{mode}"
+    validate_crash_traces(chk, S._CTX["work"], results, label_of, pid=pid, clauses=WEIGHT_CRASH_CLAUSES)
+    groups, reached = {}, 0
+    for r in results:
+        chk.evaluated(1)
+        if r.get("nothing_to_restart") or r.get("not_reached"):
+            continue
+        reached += 1
+        scn = r["scenario"]
+        chk.nontrivial(("crash", json.dumps(scn, sort_keys=True), tuple(map(tuple, r["points"]))))
+        rp = {"property": pid, "binding": "B", "kind": "crash", "scenario": scn, "points": r["points"], "label": label_of(r)}
+        for sig, what in r["problems"]:
+            chk.violation(f"{label_of(r)};outcome:{sig}", f"killed at {label_of(r)}: {what}", dict(rp, observed=what))
+        if r["events"]:
+            key = (scn["n"], scn["workers"])
+            groups.setdefault(key, ([], []))
+            groups[key][0].append(trace.encode_trace(r["events"]))
+            groups[key][1].append(rp)
+    orig_violation, orig_clauses = chk.violation, sc.clauses
+
+    def labelled(signature, what, replay):
+        return orig_violation(f"{replay.get('label', '')};outcome:{signature}", what, replay)
+    chk.violation = labelled
+    sc.clauses = set(WEIGHT_TRACE_CLAUSES)
+    try:
+        sc.validate_multi(groups)
+    finally:
+        chk.violation, sc.clauses = orig_violation, orig_clauses
+    chk.cov["crash_points_on_data_and_restart_file"] = {"cases": len(cases), "reached_a_restart": reached}
+    if cases and not reached:
+        chk.machinery("no crash case reached a restart")
+    print(f"  crashes at the effects on the data file / restart file: {len(cases)} cases, {reached} restarted and driven to the end", flush=True)
 
 
 def main(tier, replay=None):
@@ -400,9 +471,10 @@ def main(tier, replay=None):
                      "when the killed run left a restart file and the restarted run was driven to its end; distinct by (scenario, crash points)")
 
 
-def replay_case(path):
+def replay_case(path, pid=None):
     with open(path) as fh:
         rp = json.load(fh)
+    PID = pid or globals()["PID"]
     work = common.tmpdir("c08r-")
     S._CTX["work"] = work
     try:
@@ -415,13 +487,13 @@ def replay_case(path):
         if rp.get("spec") == "TraceCrash":
             chk = common.Check(PID, "quick", "fault_enumeration")
             before = len(chk.violations) if hasattr(chk.violations, "__len__") else chk.violations
-            validate_crash_traces(chk, work, [r], lambda _r: "replay")
+            validate_crash_traces(chk, work, [r], lambda _r: "replay", pid=PID, clauses=WEIGHT_CRASH_CLAUSES if pid else None)
             after = len(chk.violations) if hasattr(chk.violations, "__len__") else chk.violations
             if after != before:
                 bad.append(("crash-model", rp.get("clause")))
         if r["events"]:
             res = trace.validate({(rp["scenario"]["n"], rp["scenario"]["workers"]): [trace.encode_trace(r["events"])]}, procs=1)
-            bad += [(c, c) for _o, _n, _w, x in res for (_t, _e, c) in x["bad"] if c in CLAUSES]
+            bad += [(c, c) for _o, _n, _w, x in res for (_t, _e, c) in x["bad"] if c in (WEIGHT_TRACE_CLAUSES if pid else CLAUSES)]
         if bad:
             print(f"VIOLATION property={PID} replay={path}\n  {bad[:5]}")
             return 1
